@@ -1,6 +1,6 @@
-CONSTANTS NB = 2  MODE = "mem"
+CONSTANTS NB = 2  MODE = "mem"  MOUTS = {2, 3}  BREAKS = FALSE
   SHAPES = {"filter","projection","projection_udf","filter_udf","coalesce_batches","sort","topk","agg_single","window","bounded_window","union","interleave","coalesce_parts","repart_rr","repart_hash","repart_preserve","spm","agg_partial_final","hash_join","hash_join_part","hash_join_outer","smj","nlj","cross","limit","limit_xchg","sort_repart","filter_union_sort"}
 SPECIFICATION Spec
-INVARIANTS TypeOK NoTruncation FaultSurfaces FaultReached CleanFailure WithinLimit ReleasedWhenQuiescent DroppedHoldsNothing Emit
+INVARIANTS TypeOK NoTruncation FaultSurfaces FaultReached CleanFailure WithinLimit ReleasedWhenQuiescent DroppedHoldsNothing FanSurfaces FanComplete Emit
 PROPERTIES Terminates DropReleases StaysReleased
 CHECK_DEADLOCK FALSE
